@@ -395,6 +395,8 @@ Definition call_cmd (now : Z) (d : db) (pcall : bool) (vals : list lval) : conv 
   | Some [] => fail                                           (* "No command specified" *)
   | Some (nm :: rest) =>
       if blocked (upper nm) then fail else
+      (* lazy expiry before the executor runs the command, as for a command sent directly *)
+      let d := fst (expire_before now d (upper nm) (map FBulk (nm :: rest))) in
       match exec_run now d (map FBulk (nm :: rest)) None with
       | (r, d') => (resp_to_lua pcall r, d')
       end
